@@ -111,6 +111,20 @@ func safeRun(f Op, args []string) (res string) {
 
 var opTimeout = 20 * time.Second
 
+func verifRoot() string {
+	if v := os.Getenv("VERIF_ROOT"); v != "" {
+		return v
+	}
+	return "/verif"
+}
+
+func repoRoot() string {
+	if v := os.Getenv("REPO_ROOT"); v != "" {
+		return v
+	}
+	return "/repo"
+}
+
 func main() {
 	prop := flag.String("prop", "", "property id")
 	tier := flag.String("tier", "quick", "quick|thorough")
@@ -154,7 +168,7 @@ func main() {
 	}
 	g := &G{state: *seed*0x2545F4914F6CDD1D + 0x1234567, Tier: *tier, Prop: *prop, out: out}
 	// corpus first (minimised past disagreements / witnesses)
-	if fh, err := os.Open("/verif/corpus/" + *prop + ".lines"); err == nil {
+	if fh, err := os.Open(verifRoot() + "/corpus/" + *prop + ".lines"); err == nil {
 		sc := bufio.NewScanner(fh)
 		sc.Buffer(make([]byte, 1<<20), 1<<26)
 		for sc.Scan() {
